@@ -3,11 +3,10 @@ package blockchain
 
 import (
 	"github.com/NethermindEth/juno/blockchain/networks"
-	"github.com/NethermindEth/juno/blockchain/statebackend"
 	"github.com/NethermindEth/juno/core"
 	"github.com/NethermindEth/juno/core/felt"
+	"github.com/NethermindEth/juno/db"
 	"github.com/NethermindEth/juno/db/memory"
-	"github.com/NethermindEth/juno/pruner"
 	"github.com/NethermindEth/juno/zzverif/vx"
 )
 
@@ -22,22 +21,15 @@ import (
 // After the reorg a query for B over the replaced range must return every B event.
 
 func vxBC(mem *memory.Database, next uint64) *Blockchain {
+	// the real constructor (whatever it initialises - caches, feeds, the state backend - is initialised);
+	// only the running filter's lazy start-up scan is replaced by a filter that is already positioned
+	// at `next` with an empty window
 	const w = core.NumBlocksPerFilter
 	from := next - next%w
-	inner := core.NewAggregatedFilter(from)
-	rf := core.NewRunningEventFilterHot(mem, &inner, next)
-	cache := NewAggregatedBloomCache(AggregatedBloomFilterCacheSize)
-	cache.WithFallback(func(key EventFiltersCacheKey) (core.AggregatedBloomFilter, error) {
-		return core.GetAggregatedBloomFilter(mem, key.fromBlock, key.toBlock)
-	})
-	return &Blockchain{
-		network:       &networks.Sepolia,
-		database:      mem,
-		listener:      &SelectiveListener{},
-		cachedFilters: cache,
-		runningFilter: rf,
-		stateBackend:  statebackend.New(mem, rf, &networks.Sepolia, &pruner.RetentionFloor{}, false),
-	}
+	return New(mem, &networks.Sepolia, WithRunningEventFilterInitializer(func(d db.KeyValueStore) (*core.RunningEventFilter, error) {
+		inner := core.NewAggregatedFilter(from)
+		return core.NewRunningEventFilterHot(d, &inner, next), nil
+	}))
 }
 
 type vxFork struct {
